@@ -4,9 +4,10 @@ usage: seedrecord.py PROP N [CHECKPROP ...]"""
 import json, os, re, shutil, subprocess, sys
 prop, n = sys.argv[1], sys.argv[2]
 checks = sys.argv[3:] or [prop]
-sd = f"/tmp/seed_{prop}"
+sd = os.environ.get("SEED_DIR_PREFIX", "/tmp/seed_") + prop
+round_tag = os.environ.get("SEED_ROUND", "")
 out = subprocess.run(["/verif/tools/seedtest.sh", prop, n] + checks, capture_output=True, text=True).stdout
-dst = f"/verif/seeded/{prop}-{n}"
+dst = f"/verif/seeded/{prop}-{round_tag}{n}"
 os.makedirs(dst, exist_ok=True)
 shutil.copy(f"{sd}/patch{n}.diff", f"{dst}/patch.diff")
 shutil.copy(f"{sd}/demo{n}_test.go", f"{dst}/demo_test.go")
